@@ -14,8 +14,9 @@ CFG = {
             "3*capacity+40 rounds of Put/Delete of fresh keys in three styles (one or two keys in flight, lookups of the deleted and of an "
             "absent key), with lookups of resident keys, under hash families {fnv, id, const, mod3, class} and default/larger/tighter options, "
             "for all four tables; adversarial: fills across the growth threshold under a constant hash with lookups of absent colliding keys, "
-            "delete/revive, threshold oscillation; clients: grammar.Productions (a quadratic table inside the library) under Add/Remove/RemoveAll churn "
-            "of fresh heads with Get lookups, watchdog only plus a map-of-heads oracle. Non-trivial: at least one structural event on the model side (growth, shrink, "
+            "delete/revive, threshold oscillation; clients: library-internal users of the quadratic table under the watchdog with a small oracle each — grammar.Productions under "
+            "Add/Remove/RemoveAll churn of fresh heads with Get lookups; FIRST/FOLLOW tables via ComputeFIRST/ComputeFOLLOW on chain grammars with 20-300 "
+            "symbols; lr.ParsingTable under AddACTION/SetGOTO/ACTION/GOTO churn over up to 200 states x 120 symbols. Non-trivial: at least one structural event on the model side (growth, shrink, "
             "in-place rehash, revival, successful Delete); distinct = distinct (configuration, op list).",
     "assumptions": ["a 500 ms watchdog deadline separates non-termination from slow operations (tables below 10^4 slots)",
                     "float32 load-factor comparisons equal the exact rational comparisons of the model",
